@@ -208,6 +208,16 @@ def c13_sweep(binary):
             m = _re.search(r'SWEEP pairs=(\d+)', out)
             if m:
                 pairs += int(m.group(1))
+            v2 = _re.search(r'SWEEPVIOL2 boot=(\d+) rem=(\d+) gap=(\d+) got=(-?\d+) want=(-?\d+)', out)
+            if v2 and viol is None:
+                boot, rem, gap, got, want = (int(x) for x in v2.groups())
+                trace = ('PROFILE clock-keep\nCFG CLOCK ref=none bak=0 boot=%d testable=1\nSET 600000000\nADV %d\nGET\nADV %d\nGET\n'
+                         % (boot, rem, gap))
+                o = K.run_trace(binary, trace)
+                if not (o.failed and o.vclass == 'c13-exact'):
+                    raise K.HarnessError('sweep disagreement does not reproduce as a trace: boot=%d rem=%d gap=%d' % (boot, rem, gap))
+                viol = {'trace': trace, 'msg': 'set at counter %d, poll %d ms later, poll %d ms after that: getNow()=%d, expected %d'
+                        % (boot, rem, gap, got, want)}
             v = _re.search(r'SWEEPVIOL boot=(\d+) gap=(\d+) got=(-?\d+) want=(-?\d+)', out)
             if v and viol is None:
                 boot, gap, got, want = (int(x) for x in v.groups())
@@ -218,8 +228,13 @@ def c13_sweep(binary):
                     raise K.HarnessError('sweep disagreement does not reproduce as a trace: boot=%d gap=%d' % (boot, gap))
                 viol = {'trace': trace, 'msg': 'set at counter %d, one poll %d ms later: getNow()=%d, expected %d'
                         % (boot, gap, got, want)}
-    return ({'pairs_checked': pairs, 'phases': 65536, 'gaps': '1..64536', 'counter_bases': ['0x00000000', '0xFFFF0000'],
-             'exhaustive': viol is None and pairs == 2 * 65536 * 64536, 'wall_s': round(time.time() - t0, 1)}, viol)
+    one_gap = 2 * 65536 * 64536
+    carried = 64 * 4 * 1000 * 64536
+    return ({'schedules_checked': pairs,
+             'family_1': 'set at every phase m0 mod 65536, one gap 1..64536, one reading; counter bases 0x00000000 and 0xFFFF0000 (%d)' % one_gap,
+             'family_2': 'set, poll after r = 0..999 ms (carried remainder), one gap 1..64536, one reading; 256 start phases '
+                         'across the 2^32 wrap (%d)' % carried,
+             'exhaustive': viol is None and pairs == one_gap + carried, 'wall_s': round(time.time() - t0, 1)}, viol)
 
 
 # One trace executes in milliseconds (tens of ms under sanitizers); anything that needs longer than this
